@@ -114,6 +114,7 @@ def run(ctx):
     routing(ctx, S, rp)
     # ---------------- enumerant names through Display
     display_names(ctx)
+    display_arms(ctx, S, rp)
     # ---------------- literal rule
     literal_rule(ctx, q, S, rp)
     # ---------------- line format and module walk
@@ -193,6 +194,100 @@ def display_names(ctx):
     ok = len(dim) == len(set(dim)) == len(enums["Dim"]["variants"])
     ctx.ob("display/Dim-prefix-strip-keeps-names-distinct", True if ok else False)
     ctx.extra["enumerant_display_arms"] = n
+
+
+def display_arms(ctx, S, rp):
+    """M2: `<Operand as Display>::fmt` for every Operand variant: the arm writes its payload through exactly ONE placeholder with
+    no literal text around it (ids: the prefix `%`), strings through `{:?}` (quoted AND escaped, so a string cannot spill over
+    the line or close its own quotes), numbers through `{}`, enumerants through `{:?}` (the variant name, C08)."""
+    mf, registry = S.mf, S.registry
+    c = [x for x in mf.find("fmt", kind="fn") if "autogen_operand.rs" in x[0] and re.search(r"\(_1: &(\w+::)*Operand, _2: &mut Formatter", mf.lines[x[2]])]
+    # the derived Debug::fmt has the same signature: Display is the one that goes through write_fmt
+    def body_has(ln, needle):
+        k = ln + 1
+        while k < len(mf.lines) and not mf.lines[k].startswith("}"):
+            if needle in mf.lines[k]:
+                return True
+            k += 1
+        return False
+    c = [x for x in c if body_has(x[2], "write_fmt") and not body_has(x[2], "debug_tuple_field")]
+    if len(c) != 1:
+        ctx.ob("display-arms/encodable", None, "%d candidates for <Operand as Display>::fmt" % len(c))
+        return
+    fn = mf.parse_item(c[0][2])
+    e = registry.lookup("constructs::Operand")
+    payload_ty = __import__("c02").operand_payload_types()
+    enums, masks = tables.spirv_decls()
+
+    def m_write_fmt(engine, st, fr, callee, args, ops):
+        st.events.append(("write_fmt", args[1]))
+        return sym.Adt("Result", "Ok", [sym.UNIT])
+    bad = []
+    n = 0
+    for variant, disc in e["variants"]:
+        ty = payload_ty.get(variant)
+        if ty is None:
+            continue
+        pv = sym.Sym("text", "String") if ty == "String" else z3.BitVec("payload", 64 if ty == "u64" else 32)
+        eng = sym.Engine([mf], registry, models=[(r"^Formatter::<'_>::write_fmt$", m_write_fmt),
+                                                 (r"^<(std::string::)?String as (std::ops::)?Index<(std::ops::)?RangeFrom<usize>>>::index$",
+                                                  lambda en, st_, fr, cl, a, o: sym.Adt("StrSuffix", None, [a[0], a[1]]))] + fmt_models(), eager=True, loop_bound=3)
+        try:
+            res = eng.run(fn, [sym.Ref(("h", "op"), ()), sym.Sym("f", "Formatter")], mem={("h", "op"): sym.Adt("dr::constructs::Operand", variant, [pv])})
+        except mir.Unsupported as ex:
+            ctx.ob("display-arms/%s" % variant, None, "not encodable: %s" % str(ex)[:200])
+            continue
+        ctx.functions.update(eng.stats.functions)
+        wf = [ev for r in res for ev in r.events if ev[0] == "write_fmt"]
+        if len(res) != 1 or len(wf) != 1 or not (isinstance(wf[0][1], sym.Adt) and wf[0][1].ty == "FmtArgs"):
+            ctx.ob("display-arms/%s" % variant, None, "%d paths, %d write_fmt calls" % (len(res), len(wf)))
+            continue
+        fa = wf[0][1]
+        tmpl = fa.fields[0]
+        tmpl_s = tmpl.root[1] if isinstance(tmpl, sym.Ref) and isinstance(tmpl.root, tuple) and tmpl.root[0] == "lit" else repr(tmpl)
+        args_ = fa.fields[-1]
+        if isinstance(args_, sym.Ref):
+            args_ = eng.read_at(_mkstate(res[0].mem), args_.root, args_.path)
+        kinds = [a.variant for a in args_.items] if isinstance(args_, sym.Arr) else []
+        is_id = variant.startswith("Id")
+        want_t = 'b"\\x01%\\xc0\\x00"' if is_id else 'b"\\xc0\\x00"'
+        if ty == "String" or (variant in enums and variant != "Dim") or variant in masks or variant == "LiteralSpecConstantOpInteger":
+            want_k = ["debug"]
+        else:
+            want_k = ["display"]
+        n += 1
+        ok = tmpl_s == want_t and kinds == want_k
+        if want_k == ["display"] and kinds == ["debug"] and ty in ("u32", "u64") and variant not in enums and variant not in masks:
+            ok = tmpl_s == want_t          # Debug and Display of the primitive integers print the same decimal digits
+        if variant == "Dim":
+            ok = tmpl_s == want_t and kinds == ["display"]
+        ctx.ob("display-arms/%s" % variant, True if ok else False, None if ok else "template %s with %s; expected %s with %s" % (tmpl_s, kinds, want_t, want_k))
+        if not ok:
+            bad.append((variant, tmpl_s, kinds))
+    ctx.extra["display_arms"] = n
+    if not bad:
+        return
+    # native confirmation
+    for variant, tmpl_s, kinds in bad[:3]:
+        if variant == "LiteralString":
+            le = __import__("c03").le
+            txt = b'a"b\nOpNop\\\x00\x00'          # a"b<newline>OpNop<backslash>, NUL padded to 12 bytes
+            txt = txt + b"\x00" * ((4 - len(txt) % 4) % 4)
+            words = __import__("c03").HEADER + le((2 + len(txt) // 4) << 16 | 5) + le(1) + txt.hex()
+            real = rp.ask("load_disassemble %s" % words)
+            text = real.get("text", "")
+            lines = [l for l in text.split("\n") if "OpName" in l or l.strip() == "OpNop" or l.startswith("OpNop")]
+            want_line = 'OpName %1 "a\\"b\\nOpNop\\\\"'
+            if real.get("loaded") and not any(l.strip() == want_line for l in text.split("\n")):
+                ctx.violation("disassemble/string-not-escaped", "a string operand is not rendered quoted-and-escaped: OpName %%1 with the name a\"b<newline>OpNop\\ is disassembled as %r "
+                              "(expected the single line %r)" % ([l for l in text.split("\n")[-3:]], want_line), {"cmd": "load_disassemble %s" % words, "real": real})
+            else:
+                ctx.inconclusive.append(("display-arms/%s/native" % variant, "model sees template %s %s but the compiled crate prints the escaped form" % (tmpl_s, kinds)))
+        else:
+            real = rp.ask("disas_operand %s %d" % (variant, 7))
+            ctx.violation("disassemble/operand-display/%s" % variant, "Operand::%s is written with template %s and %s arguments (one bare placeholder%s expected); "
+                          "the compiled crate prints %r for the payload 7" % (variant, tmpl_s, kinds, " after '%'" if variant.startswith("Id") else "", real.get("text")),
+                          {"cmd": "disas_operand %s 7" % variant, "real": real})
 
 
 def literal_rule(ctx, q, S, rp):
@@ -355,12 +450,14 @@ def module_walk(ctx, q, S):
         return z3.BoolVal(False)
 
     def m_track(engine, st, fr, callee, args, ops):
+        st.events.append(("track", args[0], args[1] if len(args) > 1 else None))
         return sym.UNIT
 
     def m_new_tracker(engine, st, fr, callee, args, ops):
         return sym.Sym(engine.fresh_name("tracker"), "Tracker")
 
     def m_map(engine, st, fr, callee, args, ops):
+        st.events.append(("map_closure", args[1], len(st.events)))
         return c15.T("mapped", c15.into_term(engine, st, args[0]), args[1])
 
     def m_collect_join(engine, st, fr, callee, args, ops):
@@ -462,3 +559,110 @@ def module_walk(ctx, q, S):
     except mir.Unsupported as ex:
         ctx.ob("walk/encodable", None, str(ex)[:300])
     ctx.extra["walk_sample"] = kinds[:12]
+    try:
+        constants_see_all_types(ctx, q, S, eng, r, models)
+    except mir.Unsupported as ex:
+        ctx.ob("walk/constants-typed-against-all-declarations", None, "not encodable: %s" % str(ex)[:300])
+
+
+def constants_see_all_types(ctx, q, S, eng, r, models):
+    """'OpConstant literals [are rendered] according to the declared type' for every module the loader can produce — also when
+    the type is declared AFTER the constant: the type tracker handed to `disas_constant` must have been fed ALL of
+    types_global_values before the first global line is rendered, and rendering itself must not feed it."""
+    mf = S.mf
+    tag = "walk/constants-typed-against-all-declarations"
+    ev = r.events
+    # 1. a complete loop over module.types_global_values that tracks every element into some tracker T
+    tgv = None
+    fields = __import__("c05").struct_fields("rspirv/dr/constructs.rs", "Module")
+    want_place = "module.%d" % fields.index("types_global_values")
+    fed = {}          # tracker place -> index of the each_end event of a complete feeding loop
+    cur = None
+    for k, e in enumerate(ev):
+        if e[0] == "each_begin":
+            t = e[1]
+            cur = (c15.place_name(t.a[0]) if getattr(t, "kind", None) == "vec" else repr(t), [])
+        elif e[0] == "track" and cur is not None:
+            elem = e[2]
+            if isinstance(elem, sym.Ref) and isinstance(elem.root, tuple) and str(elem.root[1]).startswith("each:"):
+                cur[1].append((e[1].root, tuple(e[1].path)) if isinstance(e[1], sym.Ref) else None)
+        elif e[0] == "each_end" and cur is not None:
+            if cur[0] == want_place:
+                for trk in cur[1]:
+                    if trk is not None:
+                        fed[trk] = k
+            cur = None
+    # 2. the closure that renders the global instructions
+    clos = [e for e in ev if e[0] == "map_closure" and isinstance(e[1], sym.FnV)]
+    glob = None
+    for e in clos:
+        fn_ = eng.resolve_fn(e[1].name)
+        body = "\n".join(mf.lines[fn_.line:fn_.line + 80])
+        if "disas_constant" in body:
+            glob = (e, fn_)
+            break
+    if glob is None:
+        ctx.ob(tag, None, "no rendering closure that calls disas_constant found")
+        return
+    e, cfn = glob
+    log = []
+
+    def m_dc(engine, st, fr, callee, args, ops):
+        log.append(("disas_constant", args[1]))
+        st.events.append(("disas_constant", args[1]))
+        return sym.Adt("Line", None, [args[0]])
+
+    def m_trk(engine, st, fr, callee, args, ops):
+        st.events.append(("track-in-closure", args[0]))
+        return sym.UNIT
+    eng2 = sym.Engine([mf], S.registry, models=[(r"^disas_constant$", m_dc), (r"(ExtInstSetTracker|TypeTracker)::track$", m_trk)] + models, eager=True, loop_bound=4)
+    opc = z3.BitVec("opcode", 32)
+    mem = dict(r.mem)
+    mem[("h", "gclass")] = sym.Adt("grammar::Instruction", None, [sym.StrV("?"), opc, sym.Sym("c", "&[Capability]"), sym.Sym("e", "&[&str]"), sym.Sym("o", "&[LogicalOperand]")])
+    mem[("h", "ginst")] = sym.Adt("Instruction", None, [sym.Ref(("h", "gclass"), ()), sym.Sym("rt", "Option<u32>"), sym.Sym("rid", "Option<u32>"), sym.Sym("ops", "Vec<Operand>")])
+    mem[("h", "gclo")] = e[1]
+    res = eng2.run(cfn, [sym.Ref(("h", "gclo"), (), True), sym.Ref(("h", "ginst"), ())], mem=mem)
+    bad = None
+    saw_const = False
+    for p_ in res:
+        if p_.status != "return":
+            continue
+        if any(x[0] == "track-in-closure" for x in p_.events):
+            st_, m_ = q.check(list(p_.pc), "walk-closure-track")
+            if st_ != "unsat":
+                bad = "the type tracker is still being fed while the global instructions are rendered"
+        for x in p_.events:
+            if x[0] == "disas_constant":
+                saw_const = True
+                tr = x[1]
+                key = (tr.root, tuple(tr.path)) if isinstance(tr, sym.Ref) else None
+                # the closure captured a reference: follow it to the tracker place
+                while key is not None and key not in fed:
+                    v = mem.get(key[0]) if not key[1] else None
+                    if isinstance(v, sym.Ref):
+                        key = (v.root, tuple(v.path))
+                    else:
+                        break
+                if key not in fed:
+                    bad = bad or "disas_constant is given a tracker that was not fed all of types_global_values beforehand"
+                elif fed[key] > e[2]:
+                    bad = bad or "the tracker is fed after the rendering closure was built and run"
+    if not saw_const:
+        ctx.ob(tag, None, "the rendering closure has no path reaching disas_constant")
+        return
+    if bad is None:
+        ctx.ob(tag, True)
+        return
+    # native confirmation: a signed constant BEFORE the declaration of its 32-bit signed type must still print as -7
+    le = __import__("c03").le
+    words = __import__("c03").HEADER + le(4 << 16 | 43) + le(1) + le(2) + le(0xfffffff9) + le(4 << 16 | 21) + le(1) + le(32) + le(1)
+    rp = Replay()
+    real = rp.ask("load_disassemble %s" % words)
+    rp.close()
+    text = real.get("text", "")
+    if real.get("loaded") and "OpConstant  %1  -7" not in text and "OpConstant %1 -7" not in text:
+        ctx.ob(tag, False, "%s; native: %r" % (bad, [l for l in text.split("\n") if "OpConstant" in l]))
+        ctx.violation("disassemble/constant-before-its-type", "%s: a module whose OpConstant precedes the OpTypeInt 32 1 of its type is rendered as %r instead of -7" % (
+            bad, [l for l in text.split("\n") if "OpConstant" in l]), {"cmd": "load_disassemble %s" % words, "real": real})
+    else:
+        ctx.ob(tag, None, "model: %s; but the compiled crate renders the witness module correctly: %r" % (bad, [l for l in text.split("\n") if "OpConstant" in l]))
